@@ -291,10 +291,14 @@ class Checker:
                        line=c.lineno)
             # in the different-frame branch the right operand's payload is only read through the object changeFrame returned
             for ifn in [x for x in walk_own(fi.node) if isinstance(x, ast.If)]:
-                cp = cmp_parts(ifn.test, left=lambda t: t.endswith('.frame_applied'))
+                t_, neg_ = ifn.test, False
+                while isinstance(t_, ast.UnaryOp) and isinstance(t_.op, ast.Not):
+                    t_, neg_ = t_.operand, not neg_
+                cp = cmp_parts(t_, left=lambda t: t.endswith('.frame_applied'))
                 if cp is None or cp[1] not in ('==', '!=') or not cp[2].endswith('.frame_applied'):
                     continue
-                diff_branch = ifn.orelse if cp[1] == '==' else ifn.body
+                same_in_body = (cp[1] == '==') != neg_
+                diff_branch = ifn.orelse if same_in_body else ifn.body
                 raw = [x for st_ in diff_branch for x in ast.walk(st_) if isinstance(x, ast.Attribute) and x.attr == 'data'
                        and isinstance(x.value, ast.Name) and x.value.id == other]
                 n += 1
